@@ -104,8 +104,45 @@ def run(ck, ctx):
         return n
     idx, lo, up, mono_e = cfgn("index"), cfgn("lower_bound"), cfgn("upper_bound"), cfgn("log_nu_energy")
 
+    def _short(q):
+        return "mono" if q.endswith("MonoSpectrum") else ("power" if q.endswith("PowerSpectrum") else q)
+
     def variant_of(guards):
-        """'mono' / 'power' / None from the isinstance guards"""
+        """'mono' / 'power' / None: the one variant of the spectrum union that satisfies every guard.  Each
+        variant makes exactly its own isinstance atom true, so any boolean spelling of the dispatch (ladder of
+        isinstance tests, dispatch table with `is` comparisons, negated fall-throughs) is read the same way."""
+        from ..facets.poly import eval_formula
+        names = set()
+        if I.schema is not None:
+            for f in (I.schema.field_at(SPEC) or []):
+                for m in f.models:
+                    names.add(_short(m.qualname))
+        if names:
+            pr_ = Pred(I)
+            fs = []
+            atoms_v = {}
+            for k, pol, c in guards:
+                if not any(x.op == "IsInstance" for x in walk([c])):
+                    continue
+                f = pr_.formula(c)
+                fs.append(f if pol else ("not", f))
+                for key in pr_.atoms_of(f):
+                    kind, a_, _b = pr_.atoms[key]
+                    if a_ is not None and a_.op == "IsInstance" and a_.args[1].op == "Class":
+                        atoms_v[key] = _short(a_.args[1].attr.qualname)
+            if fs and atoms_v:
+                okv = []
+                for v_ in sorted(names):
+                    assign = {key: (nm == v_) for key, nm in atoms_v.items()}
+                    vals = [eval_formula(f, assign) for f in fs]
+                    if all(x is True for x in vals):
+                        okv.append(v_)
+                    elif any(x is None for x in vals) and not any(x is False for x in vals):
+                        okv.append(v_ + "?")
+                if len(okv) == 1 and not okv[0].endswith("?"):
+                    return okv[0]
+                if fs:
+                    return None
         out = None
         neg = set()
         for k, pol, c in guards:
